@@ -540,6 +540,12 @@ def run_functions(ctx):
                     len(cr.get_incompatible_shares())))
                 cases.append({"kind": "fmt", "k": k, "n": n, "results": toks})
                 ctx.case(("fmt", k, n, tuple(toks)))
+                sidx = {g.serverid(i): i for i in range(6)}
+                lines.append("fmtlists %s" % (";".join(toks) or "-"))
+                impl.append("corrupt=%s incompatible=%s" % (
+                    ",".join("%d.%d" % (sidx[s_.get_serverid()], sh) for (s_, _si, sh) in cr.get_corrupt_shares()) or "-",
+                    ",".join("%d.%d" % (sidx[s_.get_serverid()], sh) for (s_, _si, sh) in cr.get_incompatible_shares()) or "-"))
+                cases.append({"kind": "fmtlists", "results": toks})
         finally:
             g.close()
     ctx.compare("Checker._format_results on random per-server results", cases, impl, ctx.model(lines))
